@@ -49,3 +49,21 @@ theorem C09_response_pipeline (hl : Option Nat) (msgs : List (Bytes × RespState
     (respSys hl).parseSeq Response.new msgs.length ((msgs.map (·.1)).flatten ++ t)
       = msgs.map fun p => (p.2, p.1.length) :=
   Sys.pipeline (respSys_lawful hl) respInv_new msgs h t
+
+/-- C09 (first half) for requests, any limits: bytes after a complete request change nothing — same parsed value,
+    same boundary (in particular a within-limit request is not rejected because of what follows it) -/
+theorem C09_request_suffix_irrelevant (u : UriImpl) (cfg : ReqCfg) {s' : ReqState u} {raw : Bytes} {c : Nat}
+    (h : (requestSys u cfg).parse (Request.new u) raw = .ok .complete s' c) (t : Bytes) :
+    (requestSys u cfg).parse (Request.new u) (raw ++ t) = .ok .complete s' c :=
+  Sys.parse_append_complete (requestSys_lawful cfg) (reqInv_new cfg) h t
+
+/-- and the boundary lies inside the message: nothing of the suffix is consumed -/
+theorem C09_request_boundary_within (u : UriImpl) (cfg : ReqCfg) {s' : ReqState u} {raw : Bytes} {c : Nat}
+    (h : (requestSys u cfg).parse (Request.new u) raw = .ok .complete s' c) : c ≤ raw.length := by
+  unfold Sys.parse at h
+  cases hl : (requestSys u cfg).loop ((requestSys u cfg).μ (Request.new u) raw.length) (Request.new u) raw 0 with
+  | none => simp [hl] at h
+  | some r =>
+    simp only [hl] at h; subst h
+    have := (Sys.loop_consumed (requestSys_lawful cfg) (reqInv_new cfg) hl).2.1
+    omega
